@@ -58,9 +58,13 @@ pub fn run(rep: &mut Rep) {
             let id = format!("{name}:{}", ch.id());
             // cut the connection: end-of-stream, or a write error that hits the next packet the client writes - the PUBREL
             // answering a PUBREC if a QoS 2 publish is waiting for one, else a new QoS 1 PUBLISH (0-3 bytes of it get out)
-            let cut_mode = (acts.len() + ci + ch.id().len()) % 3;
+            // ... or the application's own DISCONNECT: the session (expiry interval permitting) outlives that too
+            let cut_mode = (acts.len() + ci + ch.id().len()) % 4;
             if cut_mode == 0 {
                 w.eof();
+            } else if cut_mode == 3 {
+                apply(&mut w, Act::Term(TermAct::UserDisconnect));
+                rep.add("connections_ended_by_the_users_disconnect", 1);
             } else {
                 let at = w.sim.written_len() + if cut_mode == 2 { acts.len() % 4 } else { 0 };
                 w.sim.writer.0.borrow_mut().err_at = Some(at);
